@@ -6,10 +6,12 @@ import (
 
 	"github.com/sboehler/knut/lib/amounts"
 	"github.com/sboehler/knut/lib/common/date"
+	"github.com/sboehler/knut/lib/common/dict"
 	"github.com/sboehler/knut/lib/common/predicate"
 	"github.com/sboehler/knut/lib/common/set"
 	"github.com/sboehler/knut/lib/journal"
 	"github.com/sboehler/knut/lib/model"
+	"github.com/sboehler/knut/lib/model/commodity"
 	"github.com/sboehler/knut/lib/model/registry"
 )
 
@@ -200,22 +202,27 @@ func Performance(dpv *journal.Performance) float64 {
 		v0, v1          float64
 		inflow, outflow = dpv.PortfolioInflow, dpv.PortfolioOutflow
 	)
-	for _, v := range dpv.V0 {
-		v0 += v
+	// floating point addition is not associative: sum in a fixed order
+	for _, c := range sortedCommodities(dpv.V0) {
+		v0 += dpv.V0[c]
 	}
-	for _, v := range dpv.V1 {
-		v1 += v
+	for _, c := range sortedCommodities(dpv.V1) {
+		v1 += dpv.V1[c]
 	}
-	for _, v := range dpv.Inflow {
-		inflow += v
+	for _, c := range sortedCommodities(dpv.Inflow) {
+		inflow += dpv.Inflow[c]
 	}
-	for _, v := range dpv.Outflow {
-		outflow += v
+	for _, c := range sortedCommodities(dpv.Outflow) {
+		outflow += dpv.Outflow[c]
 	}
 	if v0 == v1 && inflow == 0 && outflow == 0 {
 		return 1
 	}
 	return (v1 - outflow) / (v0 + inflow)
+}
+
+func sortedCommodities(m pcv) []*model.Commodity {
+	return dict.SortedKeys(m, commodity.Compare)
 }
 
 func Perf(j *journal.Builder, part date.Partition) *journal.Processor {
